@@ -15,6 +15,15 @@ CHECKS = {
              "exhaustive small event domain; rows and values must equal the query text evaluated by CPython. Exhaustive within the stated bounds, nothing sampled.",
         design="DESIGN.md section 3 C01", technique="explicit-state enumeration of the query grammar's derivation graph x exhaustive event domain, reference-model comparison on every execution",
         note=NOTE_EDM),
+    "C02": dict(
+        text="Every package the real translator returns for the grammar enumeration (operator budget 3 with leaf deviations on ATLAS, budget 3 on both CMS backends; "
+             "thorough budget 4), for a menu of further shapes (explicit trees, dicts, metadata, injected code and functions, plug-ins, job scripts) and for a name-uniqueness "
+             "sweep (column names {a, a1, a12, b} ten positions apart in 12-column results x every phase 0..29 (thorough 0..119) of the global name counter) is checked: "
+             "every file named in the returned info exists and nothing else is written, the entry script is executable, no template directive survives, the C++ compiles "
+             "against the model EDM (the compiler judges scope, declaration-before-use and types), a scope walk finds every translator-introduced identifier declared "
+             "exactly once with no textual use before it, members are distinct, and the executed job neither crashes nor prints an uninitialised pattern value.",
+        design="DESIGN.md section 3 C02", technique="exhaustive enumeration of accepted programs x backends plus (column names, counter phase) sweep; compiler + scope walker as oracle",
+        note=NOTE_EDM + " The spliced batch build cannot detect a missing #include (all stub headers exist); include content is checked by C06 / C12 / C14."),
     "C03": dict(
         text="All terminal forms (bare value, 2- and 3-tuples, lists, dicts, explicit ResultTTree with names from a pool in all orders, every wrong label count, "
              "1-D and 2-D sequences, mixed tuples/dicts) x a 17-entry column-expression menu that hits every typing rule, on all three backends, are translated, "
